@@ -137,3 +137,15 @@ CASES += [
         (ESOF, "                    if not numpy.allclose(ntime.data, numpy.array(time)):\n                        raise Exception(\"The times have to be equidistant\")\n",
                "                    for k_t, t_k in enumerate(time):\n                        if abs(ntime.data[k_t] - t_k) > 1.0e-8*abs(dt):\n                            raise Exception(\"The times have to be equidistant\")\n", 1)]},
 ]
+
+_VA = "quantarhei/core/valueaxis.py"
+CASES += [
+    {"name": "distance to the neighbours computed from index times step (seeded change of round 6)", "kind": "mutant", "rule": "C08-M", "edits": [
+        (_VA, "            diff1 = numpy.abs(val-self.data[nsni])", "            diff1 = numpy.abs(val - nsni*self.step)", 1),
+        (_VA, "                diff2 = numpy.abs(val - self.data[nsni+1])", "                diff2 = numpy.abs(val - (nsni+1)*self.step)", 1)]},
+    {"name": "lower neighbour index forgets the start of the axis", "kind": "mutant", "rule": "C08-M", "edits": [
+        (_VA, "        nsni = int(numpy.floor((val-self.start)/self.step))\n\n\n        if (nsni >= 0) and (nsni < self.length):\n\n            # if n0 is with bounds",
+              "        nsni = int(numpy.floor(val/self.step))\n\n\n        if (nsni >= 0) and (nsni < self.length):\n\n            # if n0 is with bounds", 1)]},
+    {"name": "distance to the neighbours computed from start plus index times step", "kind": "twin", "edits": [
+        (_VA, "            diff1 = numpy.abs(val-self.data[nsni])", "            diff1 = numpy.abs(val - (self.start + nsni*self.step))", 1)]},
+]
